@@ -36,7 +36,7 @@ CLAIMED["C12"] = ("Partial deductive proof: chans.Merge for arities 1-3 (arity 1
 CLAIMED["C18"] = ("Partial deductive proof: every typed xsync.Map wrapper equals the assumed sync.Map contract on every key state, verified for value types that are not interfaces and for ones that are (a stored nil interface, an absent key); Future: Fill once (panics, value untouched, on the second), Wait returns the filled value, and WaitContext is verified against an interfering environment (while it is blocked another goroutine may Fill: channel state, value and ghost value are havocked under the rely condition 'closed implies x is the filled value') - it returns the filled value exactly through the future's arm and ctx.Err() only through the Done arm; Watchable: Set publishes a fresh cell and closes exactly the replaced cell's channel, and Value is verified against an environment that may Set the watchable any number of times before each of its three atomic steps (current cell and the ghost set of published cells havocked under 'a cell never becomes nil again, published cells stay published'): the pair it returns always belongs to one published cell, and when the environment did nothing it is the current cell with an open channel (zero value before the first Set).",
          "Trusted: gvc, the sequential channel and atomic.Pointer models, assumed contracts of sync.Map/atomic.Pointer/context, and the rely conditions above (reported as havoc/assume in the evidence). Not covered: closing of a returned cell's channel by a concurrent Set (closedness is not havocked), Fill racing Fill, concurrent first calls of a Lazy; Lazy is sync.OnceValue (trusted). Two genuine defects repaired by fix: commits.",
          "4.12", CLAIMED["C06"][3])
-CLAIMED["C19"] = ("Deductive proof of functional contracts of the pure helpers with loop invariants, pure callbacks as uninterpreted functions, ghost permutations and maps as (domain, value) functions: xslices All/Any/Chunk/Clear/Clone/Compact(Func)/CompactInPlace(Func)/Count(Func)/Equal(Func)/Fill/Filter(InPlace)/Group/Grow/Index(Func)/Insert/Join/LastIndex(Func)/Map/Partition/Reduce/Remove/RemoveUnordered/Repeat/Reverse/Runs/Shrink/Unique(InPlace), xsort order algebra, Search, Merge/mergeIterator.Next (heap representation: one entry per live input carrying the item last pulled from it, sources pairwise distinct and in range, Next returns the heap's least entry and ends exactly when the heap is empty - not: permutation/sortedness of the merged output), xmath Abs (per integer width, exact wrap)/Min/Max/Clamp, xmaps ToIndex/FromKeysAndValues/Set/SetFromSlice/Difference/Union/Intersection/Intersects/Reverse/ReverseSingle, xrand rShuffle (permutation) and the samplers rSample/rSampleSlice/rSampleIterator/rSampleStream (no panic, documented result length, on a trusted contract of sampler.Next).",
+CLAIMED["C19"] = ("Deductive proof of functional contracts of the pure helpers with loop invariants, pure callbacks as uninterpreted functions, ghost permutations and maps as (domain, value) functions: xslices All/Any/Chunk/Clear/Clone/Compact(Func)/CompactInPlace(Func)/Count(Func)/Equal(Func)/Fill/Filter(InPlace)/Group/Grow/Index(Func)/Insert/Join/LastIndex(Func)/Map/Partition/Reduce/Remove/RemoveUnordered/Repeat/Reverse/Runs/Shrink/Unique(InPlace), xsort order algebra, Search, Merge/mergeIterator.Next (heap representation: one entry per live input carrying the item last pulled from it, sources pairwise distinct and in range, Next returns the heap's least entry and ends exactly when the heap is empty - not: permutation/sortedness of the merged output), xmath Abs (per integer width, exact wrap)/Min/Max/Clamp, xmaps ToIndex/FromKeysAndValues/Set/SetFromSlice/Difference/Union/Intersection/Intersects/Reverse/ReverseSingle, xrand Shuffle/RShuffle (permutation), Sample/RSample (min(k, n) pairwise distinct positions below n) and the slice/iterator/stream samplers (no panic, documented result length), all on a trusted contract of sampler.Next; xerrors.WithStack (nil-preserving, returns err itself when its chain already has a stack, otherwise wraps it - relative to an assumed contract of errors.Is).",
          "Trusted: gvc, SMT solvers, assumed contracts of package slices/sort. Assumed: orders are strict weak orders, callbacks pure, NaN not modelled. xsort.Slice carries a TRUSTED contract (a permutation of its argument, sorted) used by xmaps.Intersection/Intersects; xerrors.WithStack, xsort.MergeSlices and the sort wrappers Slice/SliceStable/SliceIsSorted are exercised only by bounded stand-ins (in-package tests, exhaustive over small inputs, injected with go test -overlay; labelled bounded, never counted as proved; the WithStack one found and now guards a repaired idempotence defect). Not under contract (listed in evidence): xsort.MergeSlices; uniformity of sampling is probabilistic and not decidable here. A failed obligation of a free function is replayed on the real code (generated test evaluating the contract on candidate inputs, seeded with the solver's model); where that finds an input the VIOLATION line carries it, otherwise it ends in no-failing-input-found.",
          "4.13", CLAIMED["C06"][3])
 CLAIMED["C20"] = ("Partial deductive proof: SleepContext's decision logic (nil at once iff d <= 0; DeadlineTooSoonError with the right fields iff a deadline closer than d, before any timer exists; otherwise nil only through the arm of a timer created with exactly d, ctx.Err() only through the Done arm); JitterTicker argument validation (panics iff d <= 0 or jitter >= d), no panic for 0 <= jitter < d, every scheduled delay within [d-jitter, d+jitter], Stop and Reset advance the generation that pending callbacks compare against.",
